@@ -120,6 +120,8 @@ class C19(Prop):
         except Exception as ex:  # noqa
             rec["exc"] = type(ex).__name__
             return rec
+        if c["shape"] in BAD_SHAPES:
+            return rec          # accepted although it holds an invalid child: exc stays "none", the model expects TypeError
         if c["shape"] in ABS and dict(t.attrs) != ABS[c["shape"]]:
             rec["eq"] = False
             rec["name"] = t.name
